@@ -1034,6 +1034,13 @@ class SubtypeConstraint(Constraint):
         self.reference.unify(self.target, subtype=True, skip_basic=True)
         result = self.reference.match(self.target, subtype=True)
         if result is True:
+            if self.strict:
+                # a strict constraint excludes equality
+                same = self.reference.match(self.target)
+                if same is True:
+                    raise ConstraintViolation(self)
+                elif same is None:
+                    return self.fulfilled
             self.fulfilled = True
         elif result is False:
             raise ConstraintViolation(self)
